@@ -17,7 +17,7 @@ from __future__ import annotations
 import copy
 from typing import Any
 
-from detsim import env, gen, minimize, rng
+from detsim import env, gen, minimize, rng, runner
 from detsim.observe import (exc_token, observe_globals, observe_meta, observe_sync,
                             observe_track)
 from detsim.runner import Discard
@@ -133,6 +133,24 @@ def make_plan(seed: int, tier: str, index: int) -> dict[str, Any]:
             "schedule": schedule}
 
 
+def _reference_digests(text: str) -> dict[str, Any]:
+    """Unrestricted parse of the undamaged file in a pristine process (forked grandchild)."""
+    from detsim import world
+
+    world.install_log_sink()
+    try:
+        ref = world.parse_text(text)
+    except Exception as e:  # noqa: BLE001
+        return {"error": type(e).__name__}
+    tracks = {}
+    for inst, dd in ref.instrument_tracks.items():
+        for diff, tr in dd.items():
+            tracks[gen.PAIR_TO_HEADER[(inst.name, diff.name)]] = rng.digest(observe_track(tr))
+    return {"tracks": tracks,
+            "shared": rng.digest([observe_meta(ref.metadata), observe_sync(ref.sync_track),
+                                  observe_globals(ref.global_events_track)])}
+
+
 def _shape(sel: Any, present: list[str]) -> str:
     if sel is None:
         return "none"
@@ -154,20 +172,23 @@ def execute(plan: dict[str, Any]) -> dict[str, Any]:
     headers = plan["headers"]
     victim = plan["victim"]
     violations: list[dict[str, Any]] = []
+    # The reference observation comes from a process forked from this still-pristine image, and
+    # nothing is parsed here before the clients start: the FIRST parse of the process is then one
+    # of the (possibly concurrent) client parses, so lazily initialised process-wide state is
+    # exercised cold.  All judging happens after the simulation.
     try:
-        ref = world.parse_text(plan["F"])
-    except Exception as e:  # noqa: BLE001
-        raise Discard("undamaged-file-rejected:" + type(e).__name__) from e
-    ref_tracks = {}
-    for inst, dd in ref.instrument_tracks.items():
-        for diff, tr in dd.items():
-            ref_tracks[gen.PAIR_TO_HEADER[(inst.name, diff.name)]] = tr
-    ref_track_dig = {h: rng.digest(observe_track(t)) for h, t in ref_tracks.items()}
-    ref_shared = rng.digest([observe_meta(ref.metadata), observe_sync(ref.sync_track),
-                             observe_globals(ref.global_events_track)])
-    if sorted(ref_tracks) != sorted(headers):
+        refd = runner.in_fork(_reference_digests, plan["F"], timeout=120)
+    except runner.ChildFailure as e:
+        return {"violations": [], "digest": "", "evals": 1,
+                "harness_error": f"reference computation failed: {e}"}
+    if "error" in refd:
+        raise Discard("undamaged-file-rejected:" + refd["error"])
+    ref_track_dig = refd["tracks"]
+    ref_shared = refd["shared"]
+    ref_tracks: dict[str, Any] = {}
+    if sorted(ref_track_dig) != sorted(headers):
         violations.append({"sig": "C13/missing-key/none/reference",
-                           "detail": f"unrestricted parse has {sorted(ref_tracks)}, file has {sorted(headers)}"})
+                           "detail": f"unrestricted parse has {sorted(ref_track_dig)}, file has {sorted(headers)}"})
     world.drain_log()
     n_clients = len(plan["clients"])
     sched = Scheduler(plan["schedule"], n_clients, env.PKG_DIR,
@@ -213,10 +234,11 @@ def execute(plan: dict[str, Any]) -> dict[str, Any]:
             if damaged and h == victim:
                 continue
             same = rng.digest(observe_track(tr)) == ref_track_dig[h]
-            try:
-                same = same and bool(tr == ref_tracks[h]) and bool(ref_tracks[h] == tr)
-            except BaseException:  # noqa: BLE001
-                same = False
+            if h in ref_tracks:  # the library's own == against a local unrestricted parse
+                try:
+                    same = same and bool(tr == ref_tracks[h]) and bool(ref_tracks[h] == tr)
+                except BaseException:  # noqa: BLE001
+                    same = False
             if not same:
                 sym = "track-differs" if not damaged else (
                     "unselected-damage-visible" if not victim_selected else "track-differs")
@@ -263,14 +285,31 @@ def execute(plan: dict[str, Any]) -> dict[str, Any]:
                             "region_replace:" + plan["damage"], 0) + 1
                     sk = "select:" + _shape(op["select"], headers)
                     counters[sk] = counters.get(sk, 0) + 1
-                    judge(ci, k, op, chart, err)
+                    pending.append((ci, k, op, chart, err))
         return body
 
     harness_error = None
+    pending: list[Any] = []
     try:
         sched.run([body_for(i) for i in range(n_clients)])
     except HarnessError as e:
         harness_error = str(e)
+    if harness_error is None:
+        # local unrestricted parse, made AFTER the simulation, only for the library's own ==; it is
+        # used only if it is observably the pristine reference (otherwise this process's history
+        # has changed what a parse returns, which is C17's to report, not C13's)
+        try:
+            late = world.parse_text(plan["F"])
+            for inst, dd in late.instrument_tracks.items():
+                for diff, tr in dd.items():
+                    h = gen.PAIR_TO_HEADER[(inst.name, diff.name)]
+                    if rng.digest(observe_track(tr)) == ref_track_dig.get(h):
+                        ref_tracks[h] = tr
+        except Exception:  # noqa: BLE001
+            ref_tracks.clear()
+        counters["eq_reference_tracks"] = len(ref_tracks)
+        for ci, k, op, chart, err in sorted(pending, key=lambda x: (x[0], x[1])):
+            judge(ci, k, op, chart, err)
     world.drain_log()
     sched.record("violations", [v["sig"] for v in violations])
     return {
